@@ -357,12 +357,28 @@ def successes_outside(prov, fn, holds, only=None):
     (`only(block)` restricts to one arm of a dispatching `match`): the literal reading of "X succeeds only when G" """
     out = []
     n = 0
+    later = []
     for site, val in success_return_sites(prov, fn):
         if only is not None and not only(site[0]):
+            later.append(site[0])
             continue
         n += 1
         if not holds(dominating_conditions(prov, fn, site[0])):
             out.append(site[0])
+    if only is not None and later:
+        # the arms of the `match` yield a value and the success is made once, behind them: every way out of the arm that
+        # can still reach that success is a success of the arm
+        cfg = cfg_of(fn)
+        arm = set(b for b in fn.order if only(b))
+        for b in sorted(arm):
+            for via in cfg.succ.get(b, []):
+                hops = [(via, t) for t in cfg.succ.get(via, [])] if isinstance(via, tuple) else [(b, via)]
+                for at, t in hops:
+                    if t in arm or not any(cfg.can_reach(t, s) for s in later):
+                        continue
+                    n += 1
+                    if not holds(dominating_conditions(prov, fn, at)):
+                        out.append(b)
     # (no success site at all in the inspected part is reported as block -1: the obligation must not hold vacuously)
     return sorted(set(out)) if n else [-1]
 
